@@ -19,9 +19,15 @@ CLAIMED = {
  "C08": ("DESIGN.md 4/C08",
    "Proof of function contracts: every Do* method of the intra-procedural analysis transfers the marks of each data operand of its instruction kind to the result (quantified over the index for Phi edges and Select states); simpleTransfer/transfer delegate with the same arguments; addReturnEdge adds the edge for every in-range tuple index and never indexes out of range; addCallArgEdge adds the edge to every argument position of every callee node holding the value (map iteration in arbitrary order); FindArg's contract. The composition (markValue alias recursion, worklist fixpoint) is not proved.",
    "Trusted: as C05; assumed frame of (*SummaryGraph).addEdge (modifies only edge records). Not decided: Pre/mergeInto join, RunForwardIterative closure, makeEdgesAt* coverage."),
+ "C09": ("DESIGN.md 4/C09",
+   "Proof plus exhaustive table conformance: addParamEdgeByPos returns true and records the edge in both directions exactly when both positions are parameters; addReturnEdgeByPos rejects bad positions; PopulateGraphFromSummary calls them for every listed pair and marks the graph; and for EVERY entry of the standard-library summary table whose key resolves against the installed standard library (318 of 338) every listed position exists in the function's go/types signature (one ground obligation per entry). That a summary over-approximates the library function's behaviour is not decided.",
+   "Trusted: as C05; go/types signatures of the installed standard library. 20 keys do not resolve to any function (typos such as flat.DurationVar, ' sync/atomic.StoreInt32'); they are listed in the evidence, not failed."),
  "C14": ("DESIGN.md 4/C14",
    "Proof of function contract: escape.instructionLocality returns, for every memory-accessing instruction kind (store, load through any pointer type incl. named ones, channel receive/send, map update/lookup/range/next, type assertion, select), exactly the verdict of derefsAreLocal on the node of the accessed operand, and never classifies an unknown instruction kind as local; EscapeGraph.nodes is immutable after construction (checked frame scan). Soundness of the escape graph w.r.t. executions and schedules is not proved.",
    "Trusted: as C05; assumed contract of NodeGroup.ValueNode (returns the node of the value). Known finding 5.12 (by-value struct arguments not mapped into callee context) is not yet under contract."),
+ "C17": ("DESIGN.md 4/C17",
+   "Proof of function contracts: addInEdge handles every kind of graph node (closed world of 11) without panicking and records the in-edge; updateEdgeInfo records the edge outgoing with the mark's tuple index AND incoming at the destination (presence in both directions); by-position edges are recorded in both maps (shared with C09). The clause `same tuple index in both directions` is a known finding (5.5). Call-site / closure registration and global location sets are not yet under contract.",
+   "Trusted: as C05; getters Out()/In() are executed by inlining their real bodies over the closed world of node kinds."),
  "C18": ("DESIGN.md 4/C18",
    "Proof of function contract: reachability's instruction visitor calls visit on every operand slot of every instruction kind (quantified over the index for variadic slots; loop invariants inferred Houdini-style and checked). Whole-program conservativeness w.r.t. executions is not proved.",
    "Trusted: as C05; assumed contract (*ssa.Call).Common() == &c.Call etc. (deps.spec). Excepted slots: MultiConvert.X, SliceToArrayPointer.X, Defer.DeferStack (cannot hold function values)."),
